@@ -5,6 +5,11 @@
 //  * C17: the shared-reference and the exclusive-reference entry points (and their try_ twins) of
 //    alloc_try_with return the value at the same offset and leave the same number of bytes
 //    allocated, for Ok and for Err, started from equal states.
+//  * C03: a fixed workload run in a `reset()` loop (the statements of coq/ArenaLoop.v, on the code):
+//    a round that starts with capacity >= need(w) obtains no chunk (loop_quiet_forever); the chunk
+//    that survives reset() never shrinks and is at least 16 bytes larger after a round that
+//    obtained a chunk (round_progress); the number of obtaining rounds respects the proved bound
+//    (reset_loop_converges); and once a round obtained nothing, no later round obtains anything.
 mod probes {
     use bump_scope::alloc::Global;
     use bump_scope::settings::BumpSettings;
@@ -84,6 +89,83 @@ mod probes {
                 _ => twins!([u64; 70], u16, if ok { Ok([1u64; 70]) } else { Err(3u16) }),
             }
         }};
+    }
+
+    macro_rules! loop_with_settings {
+        ($ma:literal, $up:literal, $notes:ident, $r:ident) => {{
+            type B = Bump<Global, BumpSettings<$ma, $up>>;
+            let tag = format!("MIN_ALIGN={} UP={}", $ma, $up);
+            let first = match $r.below(4) { 0 => 64usize, 1 => 512, 2 => $r.range(64, 4096) as usize, _ => $r.range(64, 20000) as usize };
+            let n = $r.range(1, 12) as usize;
+            let w: Vec<(usize, usize)> = (0..n).map(|_| {
+                let size = match $r.below(5) { 0 => 0usize, 1 => $r.range(1, 16) as usize, 2 => $r.range(1, 200) as usize, 3 => $r.range(200, 3000) as usize, _ => $r.range(1, 9000) as usize };
+                let align = 1usize << $r.below(7);
+                (size, align)
+            }).collect();
+            let need: usize = w.iter().map(|(s, a)| s + a + 16).sum();
+            let desc = format!("{tag}, first chunk {first}, workload {:?}", w);
+            let mut b: B = Bump::with_size(first);
+            let sizes = |b: &B| -> Vec<(usize, usize)> { b.stats().small_to_big().map(|c| (c.size(), c.capacity())).collect() };
+            let start = sizes(&b);
+            if start.len() == 1 {
+                let (size0, cap0) = start[0];
+                let hs = size0 - cap0;
+                let bound = (need + hs + 15).saturating_sub(size0);
+                let mut obtained_rounds = 0usize;
+                let mut quiet_seen = false;
+                let mut prev = size0;
+                for round in 0..10 {
+                    let before = sizes(&b);
+                    let cap = before[0].1;
+                    for &(size, align) in &w { let _ = bump_scope::traits::BumpAllocatorTyped::allocate_layout(&b, core::alloc::Layout::from_size_align(size, align).unwrap()); }
+                    let after = sizes(&b);
+                    let obtained = after.len() > before.len();
+                    if obtained { obtained_rounds += 1; }
+                    if obtained && cap >= need {
+                        $notes.push(format!("reset-loop-requested-with-room: round {round} started with capacity {cap} >= need {need} and still obtained a chunk ({desc})"));
+                    }
+                    if obtained && quiet_seen {
+                        $notes.push(format!("reset-loop-keeps-requesting: round {round} obtained a chunk after an earlier round obtained none ({desc})"));
+                    }
+                    if !obtained { quiet_seen = true; }
+                    b.reset();
+                    let kept = sizes(&b);
+                    if kept.len() != 1 {
+                        $notes.push(format!("reset-loop-left-more-than-one-chunk: {} chunks after reset() in round {round} ({desc})", kept.len()));
+                        break;
+                    }
+                    let now = kept[0].0;
+                    if now < prev || (obtained && now < prev + 16) {
+                        $notes.push(format!("reset-loop-survivor-shrank: the chunk kept by reset() has size {now} after {prev} in round {round} (obtained={obtained}) ({desc})"));
+                    }
+                    if b.stats().allocated() != 0 {
+                        $notes.push(format!("reset-loop-survivor-shrank: allocated() = {} after reset() in round {round} ({desc})", b.stats().allocated()));
+                    }
+                    prev = now;
+                }
+                if 16 * obtained_rounds > bound {
+                    $notes.push(format!("reset-loop-bound-exceeded: {obtained_rounds} rounds obtained a chunk, the proved bound is 16 * rounds <= {bound} ({desc})"));
+                }
+                if !quiet_seen {
+                    $notes.push(format!("reset-loop-keeps-requesting: all 10 rounds obtained a chunk ({desc})"));
+                }
+            }
+        }};
+    }
+
+    pub fn loop_probe(r: &mut Rng) -> Vec<String> {
+        let mut notes: Vec<String> = vec![];
+        match r.below(6) {
+            0 => loop_with_settings!(1, true, notes, r),
+            1 => loop_with_settings!(1, false, notes, r),
+            2 => loop_with_settings!(8, true, notes, r),
+            3 => loop_with_settings!(8, false, notes, r),
+            4 => loop_with_settings!(16, true, notes, r),
+            _ => loop_with_settings!(4, false, notes, r),
+        }
+        notes.sort();
+        notes.dedup();
+        notes
     }
 
     pub fn entry_probe(r: &mut Rng) -> Vec<String> {
